@@ -19,14 +19,14 @@ DEFAULT_RULE = ('cases generated from one PRNG seeded by VERIF_SEED (structured 
 
 # streams: (name, quick count, thorough count)
 PROPS = {
-    'C01': {'streams': [], 'engines': ['engine_split', 'engine_sweep'],
+    'C01': {'streams': [], 'engines': ['engine_split', 'engine_probes', 'engine_sweep'],
             'rule': 'exhaustive: every string over the 15 classes up to length 4 (quick) / 5 (thorough), with a fixed and a random representative code point per class; random strings up to length 300 biased to RI runs, Extend runs, ZWJ chains, Hangul; arbitrary (also invalid) rune values; all code points for the classifier. non-trivial = more than one code point'},
-    'C02': {'streams': [], 'engines': ['engine_sweep'],
+    'C02': {'streams': [], 'engines': ['engine_sweep', 'engine_probes'],
             'rule': 'exhaustive: all 1,114,112 code points plus 9 negative / out-of-range rune values; the 14 predicate bits of the compiled Go code against the Unicode 13.0.0 reference, against the regenerated Coq tables and against the extracted classifier. non-trivial = outside ASCII'},
     'C03': {'streams': [('subst', 1500, 60000)],
             'rule': 'pairs (text, image of the text under a cluster-for-cluster substitution between caseless self-contained clusters of 1-5 code points: digits, CJK, precomposed and conjoining Hangul, emoji ZWJ sequences, flags, Indic and Thai clusters, digit + combining marks, Prepend + digit), the same operation on both with string arguments substituted likewise; the outputs must correspond under the substitution. non-trivial = contains a non-ASCII byte'},
     'C04': {'streams': [('chars', 1500, 60000), ('hist', 300, 10000)]},
-    'C05': {'streams': [('hist', 1200, 60000)]},
+    'C05': {'streams': [('hist', 1200, 60000)], 'also': ['C04', 'C09', 'C10']},
     'C06': {'streams': [('wrap', 1200, 60000)]},
     'C07': {'streams': [('ws', 1200, 50000), ('paras', 400, 20000), ('wrap', 300, 10000)]},
     'C08': {'streams': [('hist', 1000, 60000)]},
@@ -107,6 +107,31 @@ def engine_sweep(ctx, prop, r):
         r.disagreements.append({'id': 'classifier', 'stream': 'sweepcls', 'step': '-', 'model': o[:600], 'case': '', 'impl': ''})
     r.samples.append({'stream': 'sweep', 'case': 'U+0041 -> Other; U+0301 -> Extend; U+1F1E6 -> RI; -1 -> Other; 0x110000 -> Other'})
 
+def engine_probes(ctx, prop, r):
+    """how each code point joins with fixed probe characters (20 contexts covering every rule) in the
+    implementation, against the model's behaviour for that code point's class"""
+    out = os.path.join(ctx.work, 'probes.txt')
+    allf = ' -all' if ctx.tier == 'thorough' else ''
+    rc, o = ctx.sh('%s probes%s -seed %d -out %s' % (ctx.build.harness, allf, ctx.seed, out), timeout=3000)
+    if rc != 0:
+        r.engine_errors.append('probes failed: ' + o[-300:]); return
+    rc, o = ctx.sh('%s probes %s' % (ctx.driver, out))
+    m = re.search(r'PROBES (\d+) (\d+)', o)
+    if not m:
+        r.engine_errors.append('driver probes failed: ' + o[-300:]); return
+    n, bad = int(m.group(1)), int(m.group(2))
+    r.evaluations += n * 20
+    r.agreements += (n - bad) * 20
+    r.distinct_nontrivial += n
+    r.stream_counts['probe contexts: code points x 20 contexts' + (' (all code points)' if allf else ' (all table members, 16 around every class change and block end, 30000 random)')] = n
+    for l in o.splitlines():
+        if l.startswith('PROBEDIFF'):
+            f = l.split()
+            cp = int(f[1])
+            r.failures.append({'id': 'U+%04X' % cp if cp >= 0 else str(cp), 'stream': 'probes', 'in_guard': True, 'clause': '-',
+                               'case': 'codepoint %d in the probe contexts of harness/extra.go (probeCtx)' % cp, 'impl': ' '.join(f[2:])})
+    r.samples.append({'stream': 'probes', 'case': open(out).readlines()[1000].strip()})
+
 def engine_split(ctx, prop, r):
     """every class string up to a length (one fixed and one random representative per class) plus long random
     strings: gem.Split, shouldBreakAfter and CharCount against the model the C01 theorems are about"""
@@ -150,6 +175,12 @@ def engine_gemhist(ctx, prop, r):
             r.engine_errors.append('driver gemhist failed: ' + o[-300:]); return
         tot += int(m.group(1)); bad += int(m.group(2)); steps += int(m.group(3))
         for l in o.splitlines():
+            if l.startswith('GEMFAIL') and len(r.failures) < 10:
+                f = l.split()
+                line = [x for x in open(out) if x.startswith(f[1] + ' ')]
+                r.failures.append({'id': f[1], 'stream': 'gemhist', 'step': f[2], 'in_guard': True, 'clause': '-', 'what': f[3],
+                                   'case': (line[0].split('#')[0].strip() if line else '')[:1500],
+                                   'impl': (line[0].split('#')[1].strip() if line else '')[:1500]})
             if l.startswith('GEMDIFF') and len(r.disagreements) < 10:
                 f = l.split()
                 line = [x for x in open(out) if x.startswith(f[1] + ' ')]
@@ -242,6 +273,7 @@ def run_shard(ctx, stream, seed, n, tag):
     return (stream, cases, res, out, None)
 
 def digest(ctx, prop, r, stream, cases, res, out, witness_ids=None):
+    also = PROPS.get(prop, {}).get('also', [])   # verdicts of other properties that this one's statement relies on
     case_by_id = {}
     for l in open(cases):
         l = l.rstrip('\n')
@@ -272,9 +304,9 @@ def digest(ctx, prop, r, stream, cases, res, out, witness_ids=None):
         elif f[1] == 'DIFF':
             r.disagreements.append({'id': cid, 'stream': stream, 'step': f[2], 'model': ' '.join(f[3:])[:400],
                                     'case': case_by_id.get(cid, '')[:2000], 'impl': res_by_id.get(cid, '')[:2000]})
-        elif f[1] == 'M' and f[2] == prop:
+        elif f[1] == 'M' and (f[2] == prop or f[2] in also):
             model_ok[(cid, f[3])] = (f[5] == '1')
-        elif f[1] == 'V' and f[2] == prop:
+        elif f[1] == 'V' and (f[2] == prop or f[2] in also):
             g, i = f[4], f[5]
             clause = f[6] if len(f) > 6 else '-'
             k = 'g%s_i%s' % (g, i)
